@@ -169,7 +169,31 @@ func outputs(behFile, obsFile, run string) {
 			}
 		}
 	}
-	out.Write(map[string]any{"summary": true, "histories": nb + 6*len(host.Engines)})
+	// several fresh accounts touched by one commit (small inlined values: the new accounts' storage
+	// maps get equal slab indices), then a second transaction creating more accounts' storage
+	for n := 2; n <= 5; n++ {
+		for _, engine := range host.Engines {
+			w := host.NewWorld()
+			var fresh []common.Address
+			params, body := "", ""
+			for i := 0; i < n; i++ {
+				fresh = append(fresh, host.Addr(byte(0x40+i)))
+				if i > 0 {
+					params += ", "
+				}
+				params += fmt.Sprintf("s%d: auth(Storage) &Account", i)
+				body += fmt.Sprintf("    s%d.storage.save(%d, to: /storage/x)\n", n-1-i, i)
+			}
+			src := fmt.Sprintf("transaction { prepare(%s) {\n%s  } }", params, body)
+			r := w.TxE(src, fresh, engine)
+			if r.Err != nil {
+				util.Die("fresh-accounts program failed: %v", r.Err)
+			}
+			d, det := resultDigest(r)
+			out.Write(Obs{K: fmt.Sprintf("fresh%d.t0.%s", n, engine), D: d, Run: run, Detail: det})
+		}
+	}
+	out.Write(map[string]any{"summary": true, "histories": nb + 6*len(host.Engines) + 4*len(host.Engines)})
 }
 
 // ---------------------------------------------------------------- metering corpus (C31)
